@@ -113,6 +113,14 @@ reg('C06', 'grid', 'exploration',
     'Noise aside = truncation of the exact binary value to five decimals; value equality for the round-up helper.',
     'bounded exhaustive enumeration of input strings/durations against exact-arithmetic reference models', 'DESIGN.md 2.5, 3/C06')
 
+reg('C13', 'grid', 'exploration',
+    'Every meeting date of a four-year leap cycle (1461 days) x birth dates (thorough: every day of the preceding 110 years, ~58 million pairs per category; '
+    'quick: +-2 days of every anniversary that can matter in each of 111 years) x {TF, XC} x vets x underage through calc_uka_age_group, against the rule '
+    'text re-implemented on integer completed-years ages; plus definedness, ISO-string equality, ROAD dispatch, monotonicity in the birth date and the '
+    'scope of the two options.',
+    'TF rule-text equality asserted for meetings 1 Jan-30 Sep (as the property states); 29 Feb birthdays count on 28 Feb; XC cut-off = 31 Aug on or before the meeting.',
+    'bounded exhaustive enumeration of date pairs against a rule-text reference model', 'DESIGN.md 2.5, 3/C13')
+
 ALL = ['C%02d' % i for i in range(1, 20)]
 PENDING_REASON = 'check not yet built in this session (planned, see DESIGN.md section 7); not claimed until it runs clean'
 
